@@ -208,6 +208,10 @@ pub enum BuildErr {
 }
 
 /// Build a problem through the public builder API.  `y` is N x S; for `Api::Single` S must be 1.
+///
+/// The order of the builder calls must not matter (C18), so it is varied as a pure function of
+/// the inputs (replays reproduce it): with weights, (N + S) mod 3 selects
+///   0: observations, weights, epsilon   1: weights, observations, epsilon   2: epsilon, weights, observations
 pub fn build<T: Sc>(
     model: BM<T>,
     y: &DMatrix<T>,
@@ -216,14 +220,27 @@ pub fn build<T: Sc>(
     api: Api,
     par: bool,
 ) -> Result<Box<dyn Prob<T>>, String> {
+    let order = if w.is_some() { (y.nrows() + y.ncols()) % 3 } else { 0 };
     macro_rules! finish {
-        ($b:expr) => {{
+        ($b:expr, $obs:expr) => {{
             let mut b = $b;
-            if let Some(w) = w {
-                b = b.weights(w.clone());
-            }
-            if let Some(e) = eps {
-                b = b.epsilon(e);
+            let steps: [u8; 3] = match order {
+                0 => [0, 1, 2],
+                1 => [1, 0, 2],
+                _ => [2, 1, 0],
+            };
+            for st in steps {
+                b = match st {
+                    0 => b.observations($obs),
+                    1 => match w {
+                        Some(w) => b.weights(w.clone()),
+                        None => b,
+                    },
+                    _ => match eps {
+                        Some(e) => b.epsilon(e),
+                        None => b,
+                    },
+                };
             }
             match b.build() {
                 Ok(p) => Ok(Box::new(p) as Box<dyn Prob<T>>),
@@ -234,14 +251,14 @@ pub fn build<T: Sc>(
     match (api, par) {
         (Api::Single, false) => {
             assert_eq!(y.ncols(), 1);
-            finish!(LevMarProblemBuilder::new(model).observations(y.column(0).clone_owned()))
+            finish!(LevMarProblemBuilder::new(model), y.column(0).clone_owned())
         }
         (Api::Single, true) => {
             assert_eq!(y.ncols(), 1);
-            finish!(LevMarProblemBuilder::new_parallel(model).observations(y.column(0).clone_owned()))
+            finish!(LevMarProblemBuilder::new_parallel(model), y.column(0).clone_owned())
         }
-        (Api::Mrhs, false) => finish!(LevMarProblemBuilder::mrhs(model).observations(y.clone())),
-        (Api::Mrhs, true) => finish!(LevMarProblemBuilder::mrhs_parallel(model).observations(y.clone())),
+        (Api::Mrhs, false) => finish!(LevMarProblemBuilder::mrhs(model), y.clone()),
+        (Api::Mrhs, true) => finish!(LevMarProblemBuilder::mrhs_parallel(model), y.clone()),
     }
 }
 
